@@ -18,7 +18,7 @@ func baseProfile(name string) *Profile {
 		FeeW:    []int{3, 3, 2, 1, 1},
 		ScaleW:  []int{5, 2, 2, 1},
 		PassW:   []int{6, 2, 2, 1},
-		GasCutP: 0.06, BatchP: 0.15, DupP: 0.08, TimeoutP: 0.1, SingleTxP: 0.5, EmptyFeeP: 0.04, InitLimitP: 0.35,
+		GasCutP: 0.06, BatchP: 0.15, DupP: 0.08, TimeoutP: 0.1, SingleTxP: 0.5, EmptyFeeP: 0.04, InitLimitP: 0.35, SimP: 0.12, GhostTokenP: 0.0015,
 		StoreDigests: true,
 		EvidenceRule: "each evaluation is one seeded simulated run: a generated schedule of 25-70 actor events (remote users, relayers, consensus, orbiter authority, downstream admins, dust depositor, byzantine chain, operator) executed against the real application, followed by a drain (faults healed, everything relayed, one probe per route). A run is non-trivial when at least one rule of this property was actually evaluated in it; distinct_nontrivial counts distinct abstract states at packet-delivery instants (paused-protocol set, paused-pair set, paused-action set, limit bucket, number of statistics keys, dust present, environment-health vector, route, receiver encoding).",
 	}
@@ -40,10 +40,12 @@ func profileFor0(name string) *Profile {
 	switch name {
 	case "C01":
 		p.ModeBEvery, p.InjectP = 4, 0.3
+		p.GhostTokenP = 0.008
 		p.ClassW["nearmiss"], p.ClassW["canon"] = 8, 70
 		p.W["dust"], p.W["envadmin"], p.W["byz"] = 8, 5, 8
 	case "C02":
 		p.ModeBEvery, p.InjectP = 4, 0.3
+		p.GhostTokenP = 0.008
 		p.ScaleW = []int{4, 2, 3, 3}
 		p.W["dust"] = 8
 	case "C04":
@@ -117,6 +119,7 @@ func profileFor0(name string) *Profile {
 		p.Shadows = []string{"limitup"}
 		p.PassW = []int{2, 3, 4, 3}
 	case "C19":
+		p.GhostTokenP = 0.008
 		p.Special = specialC19
 		p.TraceCheck = traceCheckC19
 		p.CrossProcess = func(seed uint64) bool { return seed%8 == 0 }
